@@ -99,14 +99,113 @@ func (x *Exec) runTop(fn *ssa.Function, spec *FuncSpec) {
 		fr.reg[fv] = v
 		fr.freevars[fv.Name()] = v
 	}
+	if spec != nil {
+		for _, ls := range spec.Loops {
+			ls.matched = false // per pass
+		}
+	}
 	if errs := fr.bindLoopSpecs(); len(errs) > 0 {
-		for _, e := range errs {
-			x.genError(fr, "loop", e, fmt.Errorf("%s", e), fn.Pos())
+		// A loop clause whose loop is not in this function may have moved, with its loop, into a
+		// module-local helper that is inlined here (extract-function refactor): the clause then
+		// goes with the loop, and is evaluated in the helper's scope (ghosts and metavariables are
+		// the same; locals resolve there by name).
+		x.orphanLoops = map[*ssa.Function][]*LoopSpec{}
+		var orphans []*LoopSpec
+		for _, ls := range spec.Loops {
+			if !ls.matched {
+				orphans = append(orphans, ls)
+			}
+		}
+		seen := map[*ssa.Function]bool{fn: true}
+		var walk func(f *ssa.Function, depth int)
+		walk = func(f *ssa.Function, depth int) {
+			if depth >= 3 {
+				return
+			}
+			for _, b := range f.Blocks {
+				for _, ins := range b.Instrs {
+					ci, ok := ins.(ssa.CallInstruction)
+					if !ok {
+						continue
+					}
+					cal := ci.Common().StaticCallee()
+					if cal == nil || seen[cal] || !inModule(cal) || len(cal.Blocks) == 0 {
+						continue
+					}
+					seen[cal] = true
+					tmp := x.newFrame(cal, fr)
+					for _, ls := range orphans {
+						if ls.matched {
+							continue
+						}
+						tmp.spec = &FuncSpec{Loops: []*LoopSpec{ls}}
+						if len(tmp.bindLoopSpecs()) == 0 {
+							x.orphanLoops[cal] = append(x.orphanLoops[cal], ls)
+						}
+						for _, li := range tmp.loops {
+							li.spec = nil
+						}
+					}
+					walk(cal, depth+1)
+				}
+			}
+		}
+		walk(fn, 0)
+		// last resort for a clause found neither here nor in a helper: its recorded position
+		stillOrphan := false
+		for _, ls := range orphans {
+			if !ls.matched {
+				stillOrphan = true
+			}
+		}
+		if stillOrphan {
+			fr.allowOrdinalFallback = true
+			save := spec.Loops
+			var rest []*LoopSpec
+			for _, ls := range orphans {
+				if !ls.matched {
+					rest = append(rest, ls)
+				}
+			}
+			fr.spec = &FuncSpec{Loops: rest}
+			fr.bindLoopSpecs()
+			fr.spec = spec
+			spec.Loops = save
+		}
+		for _, ls := range orphans {
+			if !ls.matched {
+				e := fmt.Sprintf("loop %q not found", ls.Selector)
+				x.genError(fr, "loop", e, fmt.Errorf("%s", e), fn.Pos())
+			} else {
+				x.note(fmt.Sprintf("loop clause %q follows its loop into an inlined helper", ls.Selector))
+			}
 		}
 	}
 	// a let-bound metavariable is arbitrary until a matching call binds it
 	if spec != nil && len(spec.Lets) > 0 {
-		for _, b := range fn.Blocks {
+		// the function's own blocks and those of the module-local helpers it calls (a matching
+		// call may sit in a helper that is inlined, e.g. after an extract-function refactor)
+		var scan []*ssa.BasicBlock
+		seenFn := map[*ssa.Function]bool{fn: true}
+		var collect func(f *ssa.Function, depth int)
+		collect = func(f *ssa.Function, depth int) {
+			scan = append(scan, f.Blocks...)
+			if depth >= 3 {
+				return
+			}
+			for _, b := range f.Blocks {
+				for _, ins := range b.Instrs {
+					if ci, ok := ins.(ssa.CallInstruction); ok {
+						if cal := ci.Common().StaticCallee(); cal != nil && !seenFn[cal] && inModule(cal) && len(cal.Blocks) > 0 {
+							seenFn[cal] = true
+							collect(cal, depth+1)
+						}
+					}
+				}
+			}
+		}
+		collect(fn, 0)
+		for _, b := range scan {
 			for _, ins := range b.Instrs {
 				ci, ok := ins.(ssa.CallInstruction)
 				if !ok {
